@@ -24,7 +24,7 @@ Proof. induction l as [|x r IH]; [reflexivity|]. cbn [flat_map]. rewrite map_app
 Lemma up_flat_map_comp {A B C} (f : A -> B) (g : B -> list C) l : flat_map g (map f l) = flat_map (fun x => g (f x)) l.
 Proof. induction l as [|x r IH]; [reflexivity|]. cbn [map flat_map]. rewrite IH. reflexivity. Qed.
 
-Lemma flat_map_ext_in_local {A B} (f g : A -> list B) l : (forall x, In x l -> f x = g x) -> flat_map f l = flat_map g l.
+Lemma up_flat_map_ext_in {A B} (f g : A -> list B) l : (forall x, In x l -> f x = g x) -> flat_map f l = flat_map g l.
 Proof.
   induction l as [|x r IH]; intros H; [reflexivity|]. cbn [flat_map]. rewrite (H x (or_introl eq_refl)), IH; [reflexivity|].
   intros y Hy. apply H. right. exact Hy.
@@ -174,7 +174,7 @@ Section View.
   Lemma up_rl_view : view lo' = view lo.
   Proof.
     unfold view. f_equal. cbn [lo_dirs lo_fes lo']. f_equal.
-    - rewrite up_flat_map_comp. apply flat_map_ext_in_local. exact up_rl_dir_entries.
+    - rewrite up_flat_map_comp. apply up_flat_map_ext_in. exact up_rl_dir_entries.
     - rewrite map_map. apply map_ext_in. exact up_rl_file_entry.
   Qed.
 End View.
@@ -252,7 +252,7 @@ Section Main.
   Lemma up_rl_names : up_lay_names ps t' = map (up_rlp s) (up_lay_names ps t).
   Proof.
     unfold up_lay_names. rewrite up_rl_B. cbn [fst]. rewrite up_flat_map_comp, <- up_flat_map_map.
-    apply flat_map_ext_in_local. intros r _. cbn [dr_node up_rlr]. apply up_rl_file_kids.
+    apply up_flat_map_ext_in. intros r _. cbn [dr_node up_rlr]. apply up_rl_file_kids.
   Qed.
   Lemma up_rl_A : up_lay_A ps t' = (map (up_rl3 s) (fst (up_lay_A ps t)), snd (up_lay_A ps t)).
   Proof.
